@@ -33,13 +33,13 @@ theorem totals_eq_amounts (fd : FD) :
 /-- The pool totals add up exactly to the reward pot. -/
 theorem pools_sum_to_pot (pot : Nat) (fd : FD) (pools : List Pool) (hp : pot < W) (hne : pools ≠ []) :
     ((calculate pot fd pools).map (·.total)).sum = pot := by
-  have h := totals_eq_amounts fd pools (amounts pot fd pools 0) (amounts_length pot fd pools 0).symm
+  have h := totals_eq_amounts fd pools (amounts pot fd pools.length pools 0) (amounts_length pot fd pools.length pools 0).symm
   simp only [calculate, List.map_map]
   have : ((fun x : PoolOut => x.total) ∘ fun x : Pool × Nat => distribute fd x.1 x.2) =
       fun x : Pool × Nat => (distribute fd x.1 x.2).total := rfl
   rw [this]
   rw [h]
-  have := (amounts_sum pot fd hp pools 0 hne (Nat.zero_le _)).1
+  have := (amounts_sum pot fd pools.length (List.length_pos_iff.mpr hne) hp pools 0 hne (Nat.zero_le _)).1
   omega
 
 theorem mem_calculate {pot : Nat} {fd : FD} {pools : List Pool} {o : PoolOut} (hp : pot < W)
@@ -47,8 +47,8 @@ theorem mem_calculate {pot : Nat} {fd : FD} {pools : List Pool} {o : PoolOut} (h
     ∃ p t, t ≤ pot ∧ o = distribute fd p t := by
   simp only [calculate, List.mem_map] at ho
   obtain ⟨⟨p, t⟩, hz, rfl⟩ := ho
-  have ht : t ∈ amounts pot fd pools 0 := (List.of_mem_zip hz).2
-  have := (amounts_sum pot fd hp pools 0 hne (Nat.zero_le _)).2 t ht
+  have ht : t ∈ amounts pot fd pools.length pools 0 := (List.of_mem_zip hz).2
+  have := (amounts_sum pot fd pools.length (List.length_pos_iff.mpr hne) hp pools 0 hne (Nat.zero_le _)).2 t ht
   exact ⟨p, t, by omega, rfl⟩
 
 /-- Each pool's operator reward plus its delegator rewards add up exactly to the pool's total. -/
@@ -75,9 +75,9 @@ theorem each_le_pot (pot : Nat) (fd : FD) (pools : List Pool) (hp : pot < W) (hn
 /-- every pool with parameters gets exactly one entry, in iteration order -/
 theorem one_entry_per_pool (pot : Nat) (fd : FD) (pools : List Pool) :
     (calculate pot fd pools).map (·.idx) = pools.map (·.idx) := by
-  have hl := amounts_length pot fd pools 0
+  have hl := amounts_length pot fd pools.length pools 0
   simp only [calculate, List.map_map]
-  generalize amounts pot fd pools 0 = ts at hl
+  generalize amounts pot fd pools.length pools 0 = ts at hl
   induction pools generalizing ts with
   | nil => simp
   | cons p ps ih =>
